@@ -18,6 +18,7 @@ from tools.vrun import Break, WORK
 
 UNITS = ['sim', 'lex', 'upd', 'ptab', 'qbk', 'arith', 'semk', 'ovl', 'scope', 'sigs', 'objm', 'trk', 'cli', 'qev', 'cyc', 'ldsh', 'pann', 'tfa', 'nest', 'ctab', 'astore', 'vtb', 'cfold', 'acc']          # extended as units are built (see units/*.py)
 NCPU = os.cpu_count() or 8
+UNIT_PAR = int(os.environ.get('VERIF_UNIT_PAR', '4'))      # units processed side by side
 
 
 def all_units():
@@ -94,18 +95,20 @@ def main():
     units_used = []
     functions_under_contract = []
 
-    for unit in all_units():
+    def do_unit(unit):
+        # one unit: lowering, proofs, triage, native validation.  Units are independent of each other and are processed side by side (UNIT_PAR at a
+        # time) so that a property served by many units - C12 is served by all of them - stays a check one can run on every change.
         hs_all = [h for h in unit.HARNESSES if prop in h['props']]
         if args.only:
             hs_all = [h for h in hs_all if h['name'] in args.only.split(',')]
         if not hs_all:
-            continue
+            return
         try:
             pu = vrun.prepare_unit(unit.NAME, work)
         except Break as e:
             print(str(e))
             undecided.append(str(e))
-            continue
+            return
         units_used.append(pu)
         hs = [h for h in pu['harnesses'] if h['name'] in [x['name'] for x in hs_all]]
         for fn, msg in pu['breaks'].items():
@@ -113,7 +116,7 @@ def main():
 
         # ---- native transliteration validation + oracle sweep, in parallel with the proofs
         nat_future = None
-        ex = ThreadPoolExecutor(max_workers=max(2, NCPU - 2))
+        ex = ThreadPoolExecutor(max_workers=max(2, NCPU // 2))
         if hasattr(unit, 'native_validate'):
             nat_future = ex.submit(unit.native_validate, pu, work, tier, seed)
 
@@ -288,6 +291,19 @@ def main():
             except Exception as e:
                 undecided.append('NATIVE BREAK (%s): %s' % (unit.NAME, e))
         ex.shutdown()
+
+    unit_errors = []
+
+    def do_unit_guarded(unit):
+        try:
+            do_unit(unit)
+        except Exception as e:
+            unit_errors.append('%s: %s\n%s' % (unit.NAME, e, traceback.format_exc()))
+    with ThreadPoolExecutor(max_workers=UNIT_PAR) as uex:
+        list(uex.map(do_unit_guarded, all_units()))
+    for ue in unit_errors:
+        print('INTERNAL ERROR in unit ' + ue)
+        undecided.append('INTERNAL ERROR in unit ' + ue.split('\n')[0])
 
     if not units_used and not undecided:
         print('no harness registered for property %s' % prop)
